@@ -671,6 +671,10 @@ func (r *run) execTypeAssert(fr *frame, st *State, x *ssa.TypeAssert, reach stri
 	r.emit(fmt.Sprintf("(assert (= %s %s))", okc, ok))
 	res := Val{Term: val, Sort: resSort, Type: at}
 	if x.CommaOk {
+		if _, isI := at.Underlying().(*types.Interface); !isI {
+			ub := r.eng.Sorts.Unbox(at, v.Term)
+			r.assume("true", fmt.Sprintf("(=> %s %s)", okc, r.typeFacts(at, ub)))
+		}
 		return Val{Sort: "TUPLE", Tup: []Val{res, {Term: okc, Sort: "Bool", Type: types.Typ[types.Bool]}}, Type: x.Type()}
 	}
 	r.oblige(fr.name, "type-assert", reach, okc, srcText(x), x.Pos())
